@@ -450,7 +450,7 @@ pub fn finish_batch(cfg: &BatchConfig, r: BatchResult, out: &str, replay_dir: &s
         "evaluations": r.evals,
         "distinct_nontrivial": r.distinct.len(),
         "distinct_capped": r.capped,
-        "rule": rule_for(prop),
+        "rule": format!("{}; runs are executed in deterministic coverage-guided generations where applicable, with fan-out, exhaustive turn expansion and forced repetition cycles as explicit operations (DESIGN.md 12.1)", rule_for(prop)),
         "samples": r.samples,
         "runs": r.runs_done,
         "runs_planned": cfg.runs,
